@@ -374,7 +374,35 @@ def case_reuse(rng, dim, order):
     return c
 
 
+def cases_full_buffer():
+    """Nt_exp = 20 000 (stride 2, exactly 10 000 cooling saves) with F_rand placed – by means of the
+    model's E trace – so that nucleation happens in the last stride window (steps 19998 / 19999:
+    the extra post-nucleation row does not fit -> IndexError) or just before it (step 19996: the
+    row fits, solidification cannot complete -> ValueError)."""
+    h, n = 0.02, 20000
+    dt = su.dt_1d_default(h)
+    base = dict(dim="1D", config="shelf", height=h, k_s0=2000, t_tot=(n - 1.5) * dt, start=-5, stop=-12.0, rate=0.5,
+                holds=None, cnTemp=None, kind="full-buffer", row_stride=997)
+    try:
+        rec = su.record_inputs(base)
+        drv = core.Driver()
+        m = su.decode_model(drv.call(su.model_request(base, rec, Frand=1 - 1e-16, traces=True, row_stride=10 ** 9)))
+        drv.close()
+        E = m["Etrace"]
+        if m["NtExp"] != n or len(E) != n:
+            return
+        for k in (19998, 19999, 19996):
+            c = dict(base)
+            c["Frand"] = 1 - math.exp(-(E[k - 1] + E[k]) / 2)
+            c["kind"] = f"full-buffer:nucleation@{k}"
+            yield c
+    except Exception:
+        return
+
+
 def cases(rng, tier):
+    for c in cases_full_buffer():
+        yield c
     # the K6 input of DESIGN section 7 first
     yield case_reuse(rng, "0D", ("good", "bad"))
     yield case_reuse(rng, "0D", ("bad", "good"))
